@@ -67,7 +67,14 @@ pub fn make_member<P: G>(kind: &'static str, pos: usize, n: usize, d: usize) -> 
     }
     let ctx = contexts()[pos % 6];
     let built = build_cached::<P>(&cfg, &wit).honest();
-    let proof = lib_prove_honest(&built, &ctx, &mut HRng::chacha(pos as u64 + 17));
+    // "Vc" (one commitment over parameters with room for four): proved over parameters of capacity 1 and presented with the
+    // statement over the wide ones, so that the member exists whatever the PROVER thinks of spare capacity
+    let proof = if kind == "Vc" {
+        let tight = build_cached::<P>(&Cfg::new(cfg.n, cfg.m, cfg.m, cfg.d), &wit).honest();
+        lib_prove_honest(&tight, &ctx, &mut HRng::chacha(pos as u64 + 17))
+    } else {
+        lib_prove_honest(&built, &ctx, &mut HRng::chacha(pos as u64 + 17))
+    };
     let mut statement = built.statement.clone();
     let mut proof_final = proof;
     let delta = Scalar::from(0x1234_5678u64);
@@ -96,7 +103,10 @@ pub fn make_member<P: G>(kind: &'static str, pos: usize, n: usize, d: usize) -> 
         },
         _ => {},
     }
-    let alone = lib_verify_one(&statement, &proof_final, &ctx, VerifyAction::RecoverAndVerify);
+    let alone = match catch(|| lib_verify_one(&statement, &proof_final, &ctx, VerifyAction::RecoverAndVerify)) {
+        Ok(r) => r,
+        Err(p) => Err(tari_bulletproofs_plus::errors::ProofError::InvalidArgument(format!("HARNESS: singleton verification panicked: {}", p))),
+    };
     let rst = ref_statement(&statement);
     let ref_ok = match ref_proof_of(&proof_final) {
         Some(rp) => {
